@@ -8,17 +8,17 @@ package surgeon
 //@ func CopyPage
 //@   returns (err)
 //@   props C20
-//@   ensures [write] err == nil ==> fwcount == old(fwcount) + 1 && gwpath == path && gwpageid == target
-//@   ensures [content] err == nil ==> gwtxid == grtxid[srcPage] && gwroot == grroot[srcPage] && gwsequence == grsequence[srcPage] && gwfreelist == grfreelist[srcPage] && gwpgid == grpgid[srcPage] && gwmagic == grmagic[srcPage] && gwversion == grversion[srcPage] && gwpagesize == grpagesize[srcPage] && gwflags == grflags[srcPage]
+//@   ensures [write] err == nil ==> fwcount == old(fwcount) + 1 && fwpath == path && fwpageid == target
+//@   ensures [content] err == nil ==> fwtxid == grtxid[srcPage] && fwroot == grroot[srcPage] && fwsequence == grsequence[srcPage] && fwfreelist == grfreelist[srcPage] && fwpgid == grpgid[srcPage] && fwmagic == grmagic[srcPage] && fwversion == grversion[srcPage] && fwpagesize == grpagesize[srcPage] && fwflags == grflags[srcPage]
 //@   ensures [atmostone] fwcount <= old(fwcount) + 1
 //@   ensures [onlypath] fwcount > old(fwcount) ==> fwpath == path
 
 //@ func clearFreelistInMetaPage
 //@   returns (err)
 //@   props C20
-//@   ensures [write] err == nil ==> fwcount == old(fwcount) + 1 && gwpath == path && gwpageid == pageId
-//@   ensures [cleared] err == nil ==> gwfreelist == common.PgidNoFreelist && gwsumok
-//@   ensures [kept] err == nil ==> gwtxid == grtxid[pageId] && gwroot == grroot[pageId] && gwsequence == grsequence[pageId] && gwpgid == grpgid[pageId] && gwmagic == grmagic[pageId] && gwversion == grversion[pageId] && gwpagesize == grpagesize[pageId] && gwflags == grflags[pageId]
+//@   ensures [write] err == nil ==> fwcount == old(fwcount) + 1 && fwpath == path && fwpageid == pageId
+//@   ensures [cleared] err == nil ==> fwfreelist == common.PgidNoFreelist && fwsumok
+//@   ensures [kept] err == nil ==> fwtxid == grtxid[pageId] && fwroot == grroot[pageId] && fwsequence == grsequence[pageId] && fwpgid == grpgid[pageId] && fwmagic == grmagic[pageId] && fwversion == grversion[pageId] && fwpagesize == grpagesize[pageId] && fwflags == grflags[pageId]
 //@   ensures [atmostone] fwcount <= old(fwcount) + 1
 //@   ensures [onlypath] fwcount > old(fwcount) ==> fwpath == path
 
@@ -26,11 +26,11 @@ package surgeon
 //@   returns (err)
 //@   props C20
 //@   ensures [both] err == nil ==> fwcount == old(fwcount) + 2 && calls("clearFreelistInMetaPage", 0) == old(calls("clearFreelistInMetaPage", 0)) + 2
-//@   ensures [last] err == nil ==> gwpageid == 1 && gwfreelist == common.PgidNoFreelist && gwsumok && gwpath == path
+//@   ensures [last] err == nil ==> fwpageid == 1 && fwfreelist == common.PgidNoFreelist && fwsumok && fwpath == path
 //@   ensures [onlypath] fwcount > old(fwcount) ==> fwpath == path
 
 //@ func RevertMetaPage
 //@   returns (err)
 //@   props C20
-//@   ensures [older] err == nil ==> fwcount == old(fwcount) + 1 && gwpath == path && gwpageid == (grtxid[0] < grtxid[1] ? 1 : 0) && gwtxid == (grtxid[0] < grtxid[1] ? grtxid[0] : grtxid[1]) && gwroot == (grtxid[0] < grtxid[1] ? grroot[0] : grroot[1])
+//@   ensures [older] err == nil ==> fwcount == old(fwcount) + 1 && fwpath == path && fwpageid == (grtxid[0] < grtxid[1] ? 1 : 0) && fwtxid == (grtxid[0] < grtxid[1] ? grtxid[0] : grtxid[1]) && fwroot == (grtxid[0] < grtxid[1] ? grroot[0] : grroot[1])
 //@   ensures [onlypath] fwcount > old(fwcount) ==> fwpath == path
